@@ -624,6 +624,12 @@ class Recorder:
             except KeyError:
                 frame["result"] = "KeyError"
                 raise
+            except UnsatisfiedAssumption:
+                frame["result"] = "raises:reject"
+                raise
+            except Exception as e:  # third-party oracle refusing the schema (canonicalish: SchemaError) — outside the model
+                frame["result"] = f"raises:{type(e).__name__}"
+                raise
             finally:
                 rec.stack.pop()
                 end = len(rec.chooser.events)
@@ -669,8 +675,28 @@ def clean_schema(s, depth=0):
     return out
 
 
+def well_formed_draft4(schema):
+    """hypothesis-jsonschema / canonicalish refuse schemas that violate the draft-4 metaschema (duplicate enum
+    members, empty `required`, …): such documents are outside the property."""
+    import jsonschema
+    try:
+        jsonschema.Draft4Validator.check_schema(schema)
+        return True
+    except Exception:
+        return False
+
+
 def gen_location_schema(rng, loc):
-    """(schema, media_type) as negative_schema receives it for `loc`."""
+    """(schema, media_type) as negative_schema receives it for `loc` (always a well-formed draft-4 schema)."""
+    while True:
+        s, mt = _gen_location_schema(rng, loc)
+        probe = {k: v for k, v in s.items() if not (k in ("exclusiveMinimum", "exclusiveMaximum") and
+                                                     isinstance(v, int) and not isinstance(v, bool))}
+        if well_formed_draft4(probe):
+            return s, mt
+
+
+def _gen_location_schema(rng, loc):
     if loc == "body":
         s = clean_schema(G.gen_schema(rng, rng.choice([1, 2, 2, 3]), True))
         if rng.random() < 0.5 and "type" not in s:
@@ -767,7 +793,14 @@ def compare_calls(chk, calls, origin):
     for f in calls:
         if not well_formed_for_model(f["before"]):
             continue
-        r = lean_request(f)
+        if str(f.get("result", "raises")).startswith("raises"):
+            chk.feature(f"mutation:{f['name']}:{f.get('result')}")
+            continue
+        try:
+            r = lean_request(f)
+        except Exception as e:
+            chk.feature(f"mutation:{f['name']}:oracle-raises:{type(e).__name__}")
+            continue
         if r is None:
             chk.feature(f"mutation:{f['name']}:outside-model")
             continue
@@ -811,7 +844,9 @@ def mutations_corr(chk):
         with Recorder(ch) as rec:
             try:
                 getattr(M, name)(ctx, FakeDraw(ch), copy.deepcopy(schema))
-            except KeyError:
+            except InfraError:
+                raise
+            except Exception:
                 pass
         all_calls += [(c, "single") for c in rec.calls]
     # (b) whole `MutationContext.mutate` runs
@@ -830,7 +865,9 @@ def mutations_corr(chk):
                 impl = {"schema": canon(out)}
             except UnsatisfiedAssumption:
                 impl = "reject"
-            except KeyError:
+            except InfraError:
+                raise
+            except Exception:
                 impl = "KeyError"
         all_calls += [(c, "mutate") for c in rec.calls]
         if impl == "KeyError" or not rec.top_snapshots:
@@ -892,6 +929,8 @@ def gen_real_operation(rng):
         content = {}
         for mt in MEDIA[: rng.choice([1, 1, 2])]:
             sch = clean_schema(G.gen_schema(rng, rng.choice([1, 2, 2]), True))
+            while not well_formed_draft4(sch):
+                sch = clean_schema(G.gen_schema(rng, rng.choice([1, 2, 2]), True))
             if rng.random() < 0.15:
                 sch = rng.choice([{}, {"type": "string"}, {"additionalProperties": {"type": "integer"}, "type": "object"}])
             if rng.random() < 0.1 and isinstance(sch, dict) and "type" in sch:
